@@ -119,36 +119,42 @@ Definition text_duration (secs nanos : N) : bytes :=
 Definition myc_time_to_dur (d h m s us : N) : N * N :=
   ((d * 86400 + h * 3600 + m * 60 + s + us / 1000000)%N, ((us mod 1000000) * 1000)%N).
 
-Definition myc_text (m : mycv) : res bytes :=
+(* the content of a text-protocol cell: None = NULL (0xfb), Some s = the string sent
+   length-encoded (write_lenenc_str) *)
+Definition myc_text_cell (m : mycv) : res (option bytes) :=
   match m with
-  | MNull => ROk [xfb]
-  | MBytes bs => ROk (lenenc_str bs)
-  | MInt z | MUInt z => ROk (lenenc_str (dec_Z z))
-  | MFloat _ shown _ | MDouble _ shown => ROk (lenenc_str shown)
+  | MNull => ROk None
+  | MBytes bs => ROk (Some bs)
+  | MInt z | MUInt z => ROk (Some (dec_Z z))
+  | MFloat _ shown _ | MDouble _ shown => ROk (Some shown)
   | MDate y mo d h mi s us =>
       if valid_ymd (Z.of_N y) mo d then
         if valid_hms_micro h mi s us
-        then ROk (lenenc_str (text_datetime (Z.of_N y) mo d h mi s (us * 1000)))
+        then ROk (Some (text_datetime (Z.of_N y) mo d h mi s (us * 1000)))
         else RErr EOther
       else RErr EOther
   | MTime neg d h m s us =>
       if neg then RErr EOther
       else let '(secs, nanos) := myc_time_to_dur d h m s us in
-           ROk (lenenc_str (text_duration secs nanos))
+           ROk (Some (text_duration secs nanos))
   end.
 
-Fixpoint to_text (v : value) : res bytes :=
+Fixpoint text_cell (v : value) : res (option bytes) :=
   match v with
-  | VInt _ z => ROk (lenenc_str (dec_Z z))
-  | VF32 _ shown _ | VF64 _ shown => ROk (lenenc_str shown)
-  | VBytes bs => ROk (lenenc_str bs)
-  | VDate y m d => ROk (lenenc_str (text_date y m d))
-  | VDateTime y m d h mi s n => ROk (lenenc_str (text_datetime y m d h mi s n))
-  | VDur secs nanos => ROk (lenenc_str (text_duration secs nanos))
-  | VNone => ROk [xfb]
-  | VSome v' | VRef v' => to_text v'
-  | VMyc m => myc_text m
+  | VInt _ z => ROk (Some (dec_Z z))
+  | VF32 _ shown _ | VF64 _ shown => ROk (Some shown)
+  | VBytes bs => ROk (Some bs)
+  | VDate y m d => ROk (Some (text_date y m d))
+  | VDateTime y m d h mi s n => ROk (Some (text_datetime y m d h mi s n))
+  | VDur secs nanos => ROk (Some (text_duration secs nanos))
+  | VNone => ROk None
+  | VSome v' | VRef v' => text_cell v'
+  | VMyc m => myc_text_cell m
   end.
+
+Definition enc_cell (c : option bytes) : bytes :=
+  match c with None => [xfb] | Some s => lenenc_str s end.
+Definition to_text (v : value) : res bytes := rbind (text_cell v) (fun c => ROk (enc_cell c)).
 
 (* ---- binary protocol ---- *)
 Definition is_bytes_col (ct : N) : bool :=
